@@ -151,6 +151,15 @@ func (c *Case) AddFeat(f string) {
 	c.Feat = append(c.Feat, f)
 }
 
+func (c *Case) HasFeat(f string) bool {
+	for _, x := range c.Feat {
+		if x == f {
+			return true
+		}
+	}
+	return false
+}
+
 const ModulePath = "acme.org/synth"
 
 func (c *Case) PkgPath(p *Pkg) string {
